@@ -5,7 +5,26 @@ use serde_json::{json, Value};
 pub const NO_DATE: i64 = -2_000_000_000;
 
 /// A date is its day number (days since 0000-12-31); 0001-01-01 = 1.
-pub fn dn(d: NaiveDate) -> i64 { d.num_days_from_ce() as i64 }
+pub fn dn(d: NaiveDate) -> i64 {
+    let n = d.num_days_from_ce() as i64;
+    // Every date that passes through the projection is screened for INTERNAL consistency (a date carries redundant packed
+    // information - year flags, ordinal, month/day - that an operation may leave inconsistent while the day number is right).
+    // The screen is a filter only: a date that fails it is handed to TLC as a full `date` event of Trace_Calendar, which judges it.
+    let (y, m, dd) = civil_from_days(n);
+    let ok = crate::guard(|| {
+        let iw = d.iso_week();
+        let jan4 = days_from_civil(iw.year(), 1, 4);
+        let w1 = jan4 - (jan4 - 1).rem_euclid(7);
+        d.year() == y && d.month() == m && d.day() == dd && d.weekday().num_days_from_monday() as i64 == (n - 1).rem_euclid(7)
+            && d.ordinal() as i64 == n - days_from_civil(y, 1, 1) + 1 && d.leap_year() == (days_from_civil(y + 1, 1, 1) - days_from_civil(y, 1, 1) == 366)
+            && w1 <= n && n < w1 + 7 * 53 + 7 && iw.week() as i64 == (n - w1) / 7 + 1 && iw.week() <= 53
+    }).unwrap_or(false);
+    if !ok {
+        let e = crate::w::c01::date_event(d);
+        problem_ev("Trace_Calendar", e);
+    }
+    n
+}
 pub fn odn(d: Option<NaiveDate>) -> i64 { d.map(dn).unwrap_or(NO_DATE) }
 /// Monday = 0
 pub fn wd(w: chrono::Weekday) -> i64 { w.num_days_from_monday() as i64 }
